@@ -183,6 +183,14 @@ fn new_shared(open: bool) -> Arc<Shared> {
     })
 }
 fn build_sink(sh: &Arc<Shared>, cap: Option<usize>, eh: bool) -> QueuingMetricSink {
+    // without a handler the two convenience constructors are used as well (every second sink)
+    static FLIP: AtomicU64 = AtomicU64::new(0);
+    if !eh && FLIP.fetch_add(1, Ordering::Relaxed) % 2 == 0 {
+        return match cap {
+            Some(c) => QueuingMetricSink::with_capacity(GateSink(sh.clone()), c),
+            None => QueuingMetricSink::from(GateSink(sh.clone())),
+        };
+    }
     let mut b = QueuingMetricSink::builder();
     if let Some(c) = cap {
         b = b.with_capacity(c);
